@@ -40,6 +40,7 @@ type Parser struct {
 	peek     lexer.Item
 	peekPeek lexer.Item // Third lookahead token for special cases
 	errors   []error
+	verif    verifState
 }
 
 // New creates a new Parser from an io.Reader.
@@ -55,6 +56,7 @@ func New(r io.Reader) *Parser {
 }
 
 func (p *Parser) nextToken() {
+	p.verifTick()
 	p.current = p.peek
 	p.peek = p.peekPeek
 	for {
@@ -68,10 +70,12 @@ func (p *Parser) nextToken() {
 }
 
 func (p *Parser) currentIs(t token.Token) bool {
+	p.verifTick()
 	return p.current.Token == t
 }
 
 func (p *Parser) peekIs(t token.Token) bool {
+	p.verifTick()
 	return p.peek.Token == t
 }
 
